@@ -195,8 +195,9 @@ theorem Trans_validateLogoutResponse_total (env : Trans.Env) (sp : Trans.Service
 def exEnv : Trans.Env :=
   { (default : Trans.Env) with MaxClockSkew := 180000, MaxIssueDelay := 90000, StatusSuccess := "ok", timeNow := 1000 }
 def exSP : Trans.ServiceProvider :=
-  { EntityID := "sp", MetadataURL := ⟨"https://sp/md"⟩, AcsURL := ⟨"https://sp/acs"⟩, SloURL := ⟨"https://sp/slo"⟩,
-    IDPMetadata := some { EntityID := "idp", SPSSODescriptors := [] }, AllowIDPInitiated := false,
+  { (default : Trans.ServiceProvider) with
+    EntityID := "sp", MetadataURL := ⟨"https://sp/md"⟩, AcsURL := ⟨"https://sp/acs"⟩, SloURL := ⟨"https://sp/slo"⟩,
+    IDPMetadata := some { (default : Trans.EntityDescriptor) with EntityID := "idp" }, AllowIDPInitiated := false,
     ValidateAudienceRestriction := none, ValidateRequestID := none }
 def exA : Trans.Assertion :=
   { IssueInstant := 1000, Issuer := ⟨"idp"⟩,
